@@ -11,7 +11,7 @@ from ..alg import Sym, is_zero, Unsupported, PathRaised
 from ..order import Interp
 
 ATM = "typhon/physics/atmosphere.py"
-EXPECT = {"C09.args": 10, "C09.moebius": 24, "C09.rh": 3, "C09.guard": 4, "C09.mixed": 6, "C09.lapse": 2, "C09.consts": 4, "C09.pure": 12, "C09.zerodim": 1}
+EXPECT = {"C09.monotone": 5, "C09.args": 10, "C09.moebius": 24, "C09.rh": 3, "C09.guard": 4, "C09.mixed": 6, "C09.lapse": 2, "C09.consts": 4, "C09.pure": 12, "C09.zerodim": 1}
 
 PAIRS = [("vmr2mixing_ratio", "mixing_ratio2vmr"), ("vmr2specific_humidity", "specific_humidity2vmr"),
          ("mixing_ratio2specific_humidity", "specific_humidity2mixing_ratio")]
@@ -154,6 +154,64 @@ def rule_guard(ctx):
         okr = len(rets) == 1 and isinstance(rets[0].value, ast.Call) and dotted(rets[0].value.func) in ("np.exp", "numpy.exp")
         ctx.ob("%s.positive" % name, okr, "return %s" % (norm(rets[0].value)[:40] if rets else None), "np.exp(...) - positive for every T",
                node=rets[0] if rets else f.node, func=f)
+
+
+def rule_monotone(ctx):
+    """e_eq_water_mk / e_eq_ice_mk are strictly increasing in T: the formula, evaluated symbolically, is exp(g(T)) with a smooth g (no
+    clamp of the argument or of the result - np.clip / minimum / maximum make it flat outside a range) whose derivative is positive on a
+    grid over the atmospheric range; ice <= liquid below the triple point on the same grid."""
+    ctx.rule("C09.monotone", "T5", "e_eq_water_mk, e_eq_ice_mk: smooth exp(g(T)) with g' > 0 on 100..400 K; ice <= liquid below the triple point")
+    T = sp.Symbol("T", positive=True)
+    forms = {}
+    for name in ("e_eq_ice_mk", "e_eq_water_mk"):
+        f = ctx.func(ATM, name)
+
+        def positive_T(text):
+            """the guards in front of the formula look at the sign of the temperature only: decided for a positive one"""
+            try:
+                tree_ = ast.parse(text, mode="eval").body
+                env_ = {n_.id: 1 for n_ in ast.walk(tree_) if isinstance(n_, ast.Name) and n_.id not in ("np", "numpy")}
+                return bool(Interp(env_).ev(tree_))
+            except (AnalysisError, SyntaxError):
+                return None
+        ev = Sym(ctx.repo, decide=positive_T)
+        try:
+            e = ev.call(ATM, name, T)
+        except Unsupported as ex:
+            raise AnalysisError("%s: the formula could not be evaluated symbolically (%s)" % (name, ex))
+        forms[name] = e
+        clamped = e.has(sp.Max) or e.has(sp.Min) or e.has(sp.Piecewise) or e.has(sp.floor) or e.has(sp.ceiling) or e.has(sp.Abs)
+        ctx.ob("%s.smooth" % name, not clamped, "e(T) = %s" % str(e)[:110],
+               "one smooth expression of T: a clamped argument (np.clip(T, lo, hi)) or result makes the curve flat outside the range - not strictly increasing",
+               node=f.node, func=f)
+        if clamped:
+            continue
+        d = sp.diff(sp.log(e), T)
+        bad = None
+        for t in range(100, 401, 10):
+            v = float(d.subs(T, t))
+            if not v > 0:
+                bad = {"T": t, "d ln e / dT": v}
+                break
+        ctx.models.append({"rule": "C09.monotone", "cases": 31, "domain": "T = 100, 110, ..., 400 K", "exhaustive": False})
+        ctx.ob("%s.increasing" % name, bad is None, "d ln e / dT at 100..400 K: %s" % ("positive at all 31 points" if bad is None else bad),
+               "positive (the saturation pressure increases with temperature)", node=f.node, func=f, witness=bad)
+    if len(forms) == 2 and not any(x.has(sp.Max) or x.has(sp.Min) for x in forms.values()):
+        Tt = Sym(ctx.repo).const.get("triple_point_water")
+        bad = None
+        try:
+            Tt = float(Tt) if Tt is not None else None
+        except TypeError:
+            Tt = 273.16
+        if Tt is not None:
+            for t in list(range(100, int(Tt), 10)):
+                ice, liq = float(forms["e_eq_ice_mk"].subs(T, t)), float(forms["e_eq_water_mk"].subs(T, t))
+                if not ice <= liq * (1 + 1e-6):
+                    bad = {"T": t, "ice": ice, "liquid": liq}
+                    break
+            f = ctx.func(ATM, "e_eq_ice_mk")
+            ctx.ob("e_eq.ice_below_liquid", bad is None, "ice <= liquid at 100, 110, ... K below the triple point: %s" % (bad is None), "ice <= liquid below T_t",
+                   node=f.node, func=f, witness=bad)
 
 
 def rule_mixed(ctx):
@@ -349,7 +407,7 @@ def rule_zero_dim(ctx):
 
 
 def run(ctx):
-    for r in (rule_moebius, rule_rh, rule_guard, rule_mixed, rule_lapse, rule_consts, rule_zero_dim):
+    for r in (rule_moebius, rule_rh, rule_guard, rule_monotone, rule_mixed, rule_lapse, rule_consts, rule_zero_dim):
         ctx.attempt(r, ctx)
     from ..purity import rule_pure
     names = sorted(set(a for p in PAIRS for a in p)) + ["relative_humidity2vmr", "vmr2relative_humidity", "e_eq_ice_mk", "e_eq_water_mk", "e_eq_mixed_mk", "moist_lapse_rate"]
